@@ -87,3 +87,14 @@ VARIANTS += [
          old="        if callbacks is not None:\n",
          new="        if callbacks is not None and not study._stop_flag:\n"),
 ]
+
+ST2 = "optuna/study/study.py"
+VARIANTS += [
+    # F16 shape: ask() does not fail the trial when the Trial set-up raises
+    dict(id="c02-f16-shape-reintroduced", prop="C02", file=ST2, expect="R02.6",
+         old="            self._storage.set_trial_state_values(trial_id, state=TrialState.FAIL)\n            raise\n",
+         new="            raise\n"),
+    dict(id="c02-ask-fails-only-on-exception-subclass", prop="C02", file=ST2, expect="R02.6",
+         old="        except (Exception, KeyboardInterrupt):\n            # The trial already exists in the storage",
+         new="        except ValueError:\n            # The trial already exists in the storage"),
+]
